@@ -24,6 +24,7 @@ import (
 	_ "github.com/bufbuild/verifharness/internal/faults"
 	_ "github.com/bufbuild/verifharness/internal/formatmodel"
 	_ "github.com/bufbuild/verifharness/internal/filtermodel"
+	_ "github.com/bufbuild/verifharness/internal/imageiomodel"
 	_ "github.com/bufbuild/verifharness/internal/imagemodel"
 	_ "github.com/bufbuild/verifharness/internal/lintmodel"
 	_ "github.com/bufbuild/verifharness/internal/managedmodel"
